@@ -15,7 +15,7 @@ import (
 var ghostBuiltins = map[string]bool{
 	"requires": true, "ensures": true, "assert": true, "assume": true, "imp": true, "iff": true, "old": true,
 	"forall": true, "exists": true, "modifiesTail": true, "modifiesElems": true, "modifiesPtr": true, "modifiesAll": true,
-	"freshSlice": true, "sameBase": true, "sameArray": true, "disjointFromTail": true, "bytesEq": true, "strBytesEq": true, "allocated": true, "unchangedElems": true,
+	"freshSlice": true, "sameBase": true, "sameArray": true, "suffixOf": true, "disjointFromTail": true, "bytesEq": true, "strBytesEq": true, "allocated": true, "unchangedElems": true,
 	"covers": true,
 }
 
@@ -147,6 +147,10 @@ func (c *VC) evalCall(st *State, call *ast.CallExpr) []*Term {
 		fi := c.prog.funcs[fn]
 		if fi != nil && fi.Ghost && ghostBuiltins[fn.Name()] {
 			return c.ghostBuiltin(st, fn.Name(), call)
+		}
+		if fi != nil && fi.Kind == "spec" && c.isAbstract(fi) {
+			args, _ := c.evalArgs(st, fn, call)
+			return c.specUFNoAxiom(st, fi, args)
 		}
 		if fi != nil && fi.Kind == "spec" && fi.Dir.Opaque {
 			args, _ := c.evalArgs(st, fn, call)
@@ -786,8 +790,12 @@ func resultObjs(fi *FuncInfo) []*types.Var {
 
 func (c *VC) inlineCall(st *State, fi *FuncInfo, args []*Term, call *ast.CallExpr) []*Term {
 	if c.inlineDepth > 40 {
-		c.unsupportedf(call.Pos(), "inline depth exceeded at %s", fi.Name)
-		return c.havocCall(st, fi.Obj, args, call)
+		c.unsupportedf(token.NoPos, "inline depth exceeded at %s", fi.Name)
+		var rs []*Term
+		for _, r := range resultObjs(fi) {
+			rs = append(rs, c.fresh("deep", c.sortOf(r.Type())))
+		}
+		return rs
 	}
 	depth := 0
 	for _, f := range c.frames {
@@ -808,8 +816,12 @@ func (c *VC) inlineCall(st *State, fi *FuncInfo, args []*Term, call *ast.CallExp
 		if fi.Kind == "spec" {
 			return c.specUF(st, fi, args)
 		}
-		c.unsupportedf(call.Pos(), "recursive inline of %s", fi.Name)
-		return c.havocCall(st, fi.Obj, args, call)
+		c.unsupportedf(token.NoPos, "recursive inline of %s", fi.Name)
+		var rs []*Term
+		for _, r := range resultObjs(fi) {
+			rs = append(rs, c.fresh("rec", c.sortOf(r.Type())))
+		}
+		return rs
 	}
 	c.inlined[fi.Name] = true
 	isSpec := fi.Kind == "spec"
@@ -856,6 +868,7 @@ func (c *VC) inlineCall(st *State, fi *FuncInfo, args []*Term, call *ast.CallExp
 	c.inlineDepth++
 	if isSpec {
 		c.ghost++
+		c.mathInts++
 	}
 	fr := c.pushFrame(fi)
 	sub := &State{env: map[types.Object]*Term{}, heaps: st.heaps, alloc: st.alloc, pc: st.pc}
@@ -895,6 +908,7 @@ func (c *VC) inlineCall(st *State, fi *FuncInfo, args []*Term, call *ast.CallExp
 	c.popFrame()
 	if fi.Kind == "spec" {
 		c.ghost--
+		c.mathInts--
 	}
 	c.inlineDepth--
 	if isSpec {
@@ -1021,6 +1035,20 @@ func (c *VC) inlineLit(st *State, lit *ast.FuncLit, call *ast.CallExpr) []*Term 
 	return vals
 }
 
+func (c *VC) isAbstract(fi *FuncInfo) bool {
+	d := c.fn.Dir
+	if c.fn.Contract != nil {
+		d = c.fn.Contract.Dir
+	}
+	return d != nil && (d.Abstract[fi.Obj.Name()] || d.Abstract[fi.Name])
+}
+
+func (c *VC) specUFNoAxiom(st *State, fi *FuncInfo, args []*Term) []*Term {
+	r := c.specUF(st, fi, args)
+	delete(c.pendingSpecs, fi)
+	return r
+}
+
 // specUF: recursive spec function as an uninterpreted function with an unfolding axiom.
 // Arguments of slice type contribute their heap row as an extra argument.
 func (c *VC) specUF(st *State, fi *FuncInfo, args []*Term) []*Term {
@@ -1038,7 +1066,34 @@ func (c *VC) specUF(st *State, fi *FuncInfo, args []*Term) []*Term {
 	res := resultObjs(fi)
 	name := "spec_" + sanitize(fi.Name)
 	r := c.uf(name, c.sortOf(res[0].Type()), uargs...)
-	c.pendingSpecs[fi] = true
+	if c.mode == ModeInt && !c.noName {
+		if _, signed, isInt := intInfo(res[0].Type()); !isInt || !signed {
+			if k := "rng:" + r.String(); !strings.Contains(k, "?") && !c.specAxioms[k] {
+				c.specAxioms[k] = true
+				c.facts = append(c.facts, c.wf(r, res[0].Type()))
+			}
+		}
+	}
+	// fuel-1 unfolding: every application that occurs syntactically in the VC is given its
+	// definition once; applications produced by that unfolding are left folded. No quantified
+	// axioms, hence no matching loops.
+	if c.unfoldDepth == 0 && !c.isAbstract(fi) && !c.noName && fi.Decl.Body != nil {
+		key := r.String()
+		if strings.Contains(key, "?") {
+			return []*Term{r}
+		}
+		if !c.unfolded[key] {
+			c.unfolded[key] = true
+			c.unfoldDepth++
+			sub := st.clone()
+			sub.pc = tTrue
+			vals := c.inlineCall(sub, fi, args, nil)
+			c.unfoldDepth--
+			if len(vals) > 0 {
+				c.facts = append(c.facts, mkEq(r, vals[0]))
+			}
+		}
+	}
 	return []*Term{r}
 }
 
